@@ -59,13 +59,13 @@ type Stmt struct {
 	Name        QName
 	Cluster     string
 	HasCluster  bool
-	Obj         *Object     // CREATE …: prototype
-	Renames     [][2]QName  // RENAME TABLE
-	Actions     []Action    // ALTER TABLE
-	Cols        []string    // INSERT
-	Rows        [][]Val     // INSERT
-	Arg         string      // SELECT_VER: k ; SELECT_SETTING: fingerprint
-	Canon       string      // canonical token text of the whole statement
+	Obj         *Object    // CREATE …: prototype
+	Renames     [][2]QName // RENAME TABLE
+	Actions     []Action   // ALTER TABLE
+	Cols        []string   // INSERT
+	Rows        [][]Val    // INSERT
+	Arg         string     // SELECT_VER: k ; SELECT_SETTING: fingerprint
+	Canon       string     // canonical token text of the whole statement
 }
 
 // Verbs
